@@ -48,7 +48,7 @@ def work(item):
     t0 = time.time()
     if canary:
         apply_canary(dict(m, adv=adv, acc=acc), canary)
-    numenv.enable(extra_modules=[(adv, None), (acc, None), (m['init_funcs'], None)])
+    numenv.enable(extra_modules=[(adv, dict(int=numenv.symint)), (acc, dict(int=numenv.symint)), (m['init_funcs'], None)])
     symx.set_bv(None)
     breaks = vbreaks(path, ncells)
     uf_ = (path == 'cu')
